@@ -309,7 +309,11 @@ func skRun(in *skInput, sink *CaseSink, prop string) {
 			if last >= 0 && has(last) {
 				n := len(sch.Trace)
 				atSwitch := n > 0 && sch.Trace[n-1][0] == last && (sch.Trace[n-1][1] == 0 ||
-					(n > 1 && sch.Trace[n-1][1] == skiplist.VerifPtSdLoad && sch.Trace[n-2][1] == skiplist.VerifPtSdCas && sch.Trace[n-2][0] == last))
+					(n > 1 && sch.Trace[n-1][1] == skiplist.VerifPtSdLoad && sch.Trace[n-2][1] == skiplist.VerifPtSdCas && sch.Trace[n-2][0] == last) ||
+					// stale-tower programs: also right after the level-0 publish of a tall node
+					// iterator programs: also right after the iterator's own unlink CAS
+					(skSwitchHelp && n > 1 && sch.Trace[n-2][0] == last && sch.Trace[n-2][1] == skiplist.VerifPtItHelp) ||
+					(skSwitchPub && n > 1 && sch.Trace[n-1][1] == skiplist.VerifPtInsSucc && sch.Trace[n-2][1] == skiplist.VerifPtInsPub && sch.Trace[n-2][0] == last))
 				if !atSwitch {
 					return last
 				}
@@ -637,6 +641,9 @@ func skStructure(sl *skiplist.Skiplist, dist []int64, soft int64, nodeCount int6
 
 // systematic exploration (skip-exh): decision chooser supplied by Explore, and what it decided
 var skCoarse func([]int) int
+var skSwitchPub bool
+var skSwitchHelp bool
+var skExhIterOnly bool
 var skDecisions []int
 var skDecEnabled [][]int
 
@@ -644,18 +651,47 @@ func skExhCommand(a runArgs) error {
 	sink := NewSink(a.out, "C13", "Tie.SkipTie", a.seed)
 	sink.scope = "nat_scope"
 	sink.perFile = 40
-	sink.meta.Rule = "SYSTEMATIC: pile-up programs (3..4 keys built by goroutine 0, then three goroutines each deleting one of neighbouring keys and possibly re-inserting or looking up a deleted key) alternating with duel programs (2..3 goroutines deleting the same node of height 1..3, possibly re-inserting it): every schedule in which the running goroutine changes only at operation boundaries and right after a delete mark has been set is executed (depth-first, capped per program) and replayed on the model step by step; oracles as skip; non-trivial = at least two switches away from a goroutine that had just marked a node"
+	sink.meta.Rule = "SYSTEMATIC: pile-up programs (3..4 keys built by goroutine 0, then three goroutines each deleting one of neighbouring keys and possibly re-inserting or looking up a deleted key) alternating with duel programs (2..3 goroutines deleting the same node of height 1..3, possibly re-inserting it) and stale-tower programs (a tall node deleted while its inserter has linked level 0 only, a key behind it inserted and looked up meanwhile; here the goroutine may also change right after a level-0 publish): every schedule in which the running goroutine changes only at operation boundaries and right after a delete mark has been set is executed (depth-first, capped per program) and replayed on the model step by step; oracles as skip; non-trivial = at least two switches away from a goroutine that had just marked a node"
 	top := rand.New(rand.NewSource(a.seed))
 	total := 0
 	for p := 0; p < a.n; p++ {
 		var base *skInput
-		if p == 0 {
+		if p == 0 && !skExhIterOnly {
 			// the canonical pile-up
 			base = &skInput{Progs: [][]skOp{
 				{{Op: "ins", K: 10}, {Op: "ins", K: 20}, {Op: "ins", K: 30}},
 				{{Op: "del", K: 30}, {Op: "ins", K: 30}},
 				{{Op: "del", K: 20}},
 				{{Op: "del", K: 10}}}}
+		} else if skExhIterOnly {
+			// an iterator walks 10 20 30 40 while one goroutine deletes the node it may stand on and
+			// another inserts a key directly in front of that node (the iterator's own unlink of a marked
+			// node must continue with the frozen successor, not with whatever its predecessor points to)
+			x := 10 * (2 + top.Intn(2))
+			base = &skInput{Progs: [][]skOp{
+				{{Op: "ins", K: 10, Want: top.Intn(2)}, {Op: "ins", K: 20, Want: top.Intn(2)}, {Op: "ins", K: 30, Want: top.Intn(2)}, {Op: "ins", K: 40}},
+				{{Op: "first"}, {Op: "next"}, {Op: "next"}, {Op: "next"}, {Op: "next"}},
+				{{Op: "del", K: x}},
+				{{Op: "ins", K: x - 5, Want: top.Intn(2)}}}}
+			if top.Intn(3) == 0 {
+				base.Progs[1][0] = skOp{Op: "seek", K: x - 10}
+			}
+			skSwitchHelp = true
+		} else if p%4 == 2 {
+			// stale tower: a tall node is published at level 0, deleted and unlinked there while its
+			// inserter has not linked the upper level yet; a key behind it is inserted meanwhile and
+			// looked up after the upper level was linked (searches must not enter the bottom list
+			// through the frozen pointer of the dead node)
+			k := 10 * (1 + top.Intn(3))
+			base = &skInput{Progs: [][]skOp{
+				{{Op: "ins", K: 1, Want: 0}},
+				{{Op: "ins", K: k, Want: 1 + top.Intn(2)}, {Op: "look", K: k + 10}},
+				{{Op: "del", K: k}},
+				{{Op: "look", K: k - 5}, {Op: "ins", K: k + 10, Want: 0}}}}
+			if top.Intn(2) == 0 {
+				base.Progs[3] = append(base.Progs[3], skOp{Op: []string{"look", "del"}[top.Intn(2)], K: k + 10})
+			}
+			skSwitchPub = true
 		} else if p%2 == 1 {
 			// duel: several goroutines delete the SAME tall node (marks are set level by level, top-down)
 			tall := 1 + (p/2)%3
@@ -693,10 +729,16 @@ func skExhCommand(a runArgs) error {
 			in := *base
 			in.Choices = nil
 			skCoarse = ch
-			skRun(&in, sink, "C13")
+			prop := "C13"
+			if skExhIterOnly {
+				prop = "C15"
+			}
+			skRun(&in, sink, prop)
 			skCoarse = nil
 			return skDecisions, skDecEnabled
 		})
+		skSwitchPub = false
+		skSwitchHelp = false
 		total += runs
 	}
 	sink.meta.Extra = map[string]interface{}{"programs": a.n, "schedules": total}
@@ -810,5 +852,10 @@ func init() {
 	commands["skip-iter-refresh"] = skIterRefreshCommand
 	commands["skip"] = skCommand("C13", false, "2..4 goroutines on one skiplist (Go-managed and user-managed node memory), programs of 1..3 Insert (scripted level 0..3)/Delete/DeleteNode/Lookup over 2..4 keys after a short build phase, random schedules (stickiness 0/30/60/85%) parking before EVERY atomic access of findPath, Insert4, softDelete and NewLevel; after each step the label and the level-0 chain with marks are compared with the model, at the end all levels, results and statistics; oracle: brute-force linearizability of the call/return history + structural walk; non-trivial = >=2 preemptions inside operations and >=3 completed ops")
 	commands["skip-exh"] = skExhCommand
+	commands["skip-iter-exh"] = func(a runArgs) error {
+		skExhIterOnly = true
+		defer func() { skExhIterOnly = false }()
+		return skExhCommand(a)
+	}
 	commands["skip-iter"] = skCommand("C15", true, "as skip, with one goroutine running SeekFirst/Seek + Next... on the list while the others insert and delete (including the node it stands on and its predecessor); oracle additionally: the iterator never goes backwards")
 }
